@@ -22,7 +22,14 @@ if ! go build ./... 2>/tmp/seedbuild.$$; then echo "$P-$M: DOES-NOT-BUILD $(head
 rm -f /tmp/seedbuild.$$
 git diff > /tmp/seedpatch.$$
 # baseline (serialised: the suite binds a fixed port)
-base=$(flock /tmp/mut3/baseline.lock /verif/scripts/baseline.sh $W 2>&1 | grep "^baseline:" | tail -1)
+# each run in a network namespace of its own where that is possible (then many confirmations run side by side)
+if unshare -n true 2>/dev/null; then
+  NS() { unshare -n bash -c 'ip link set lo up 2>/dev/null; exec "$@"' ns "$@"; }
+else
+  mkdir -p /tmp/mut3
+  NS() { flock /tmp/mut3/baseline.lock "$@"; }
+fi
+base=$(NS /verif/scripts/baseline.sh $W 2>&1 | grep "^baseline:" | tail -1)
 # demo
 place=$(head -1 $SRC/demo_test.go | sed -n 's#^// place at: *##p' | tr -d ' \r')
 [ -z "$place" ] && place=$(python3 -c "import json;print(json.load(open('$SRC/meta.json')).get('demo_place',''))")
@@ -31,9 +38,9 @@ cp $SRC/demo_test.go $W/$place
 pkg=./$(dirname $place)
 tests=$(grep -oE '^func (Test[A-Za-z0-9_]+)' $SRC/demo_test.go | awk '{print $2}' | paste -sd'|')
 race=$(python3 -c "import json;m=json.load(open('$SRC/meta.json'));r=m.get('run');print('-race' if (r is None and '-race' in json.dumps(m)) or (r and '-race' in r) else '')")
-with=$(timeout 300 go test $race -vet=off -count=1 -timeout 120s -run "^($tests)\$" $pkg 2>&1 | grep -E '^(ok|FAIL|---|panic|WARNING: DATA RACE)' | head -5 | tr '\n' ' ')
+with=$(NS timeout 300 go test $race -vet=off -count=1 -timeout 120s -run "^($tests)\$" $pkg 2>&1 | grep -E '^(ok|FAIL|---|panic|WARNING: DATA RACE)' | head -5 | tr '\n' ' ')
 git apply -R /tmp/seedpatch.$$ 2>/dev/null || { git checkout -q -- . ; }
-without=$(timeout 300 go test $race -vet=off -count=1 -timeout 120s -run "^($tests)\$" $pkg 2>&1 | grep -E '^(ok|FAIL|---|panic|WARNING: DATA RACE)' | head -3 | tr '\n' ' ')
+without=$(NS timeout 300 go test $race -vet=off -count=1 -timeout 120s -run "^($tests)\$" $pkg 2>&1 | grep -E '^(ok|FAIL|---|panic|WARNING: DATA RACE)' | head -3 | tr '\n' ' ')
 rm -f $W/$place
 # checks against the patched tree (scratch copy, not /repo)
 git apply /tmp/seedpatch.$$
